@@ -193,6 +193,13 @@ func shrink(t *parser.ASTNode, orig *failure) *parser.ASTNode {
 		return f != nil && f.cat == cat && hasSubCat(f, sub)
 	}
 	cur := copyTree(t)
+	// shortcut: the node at the first difference, if it is a program of its own
+	if orig.cat == "structure" && orig.t2 != nil {
+		if d := diffTrees(cur, orig.t2, ""); d != nil && d.a != nil && !notStandalone[d.a.Name] &&
+			d.a.Name != parser.NodeSTATEMENTS && d.a != cur && fails(d.a) {
+			cur = d.a
+		}
+	}
 	for changed := true; changed && budget > 0; {
 		changed = false
 		// (1) descend into a sub-tree that is a program of its own and fails alike
@@ -489,12 +496,8 @@ func opSkeleton(n *parser.ASTNode) string {
 // classify derives the finding key from the minimal failing tree m and its
 // failure f.
 func classify(m *parser.ASTNode, f *failure) string {
-	if countNodes(m) > 40 {
-		// shrinking did not get anywhere near a minimal case: no feature of
-		// the tree can be blamed
-		return "unclassified:" + f.cat
-	}
 	mc := countMeta(m)
+	large := countNodes(m) > 40 // shrinking did not get near a minimal case
 	if f.cat == "pp-panic" {
 		return "pp-" + f.panicKey
 	}
@@ -505,13 +508,23 @@ func classify(m *parser.ASTNode, f *failure) string {
 		// the comments are necessary for the failure (shrinking removes every
 		// comment the failure does not depend on)
 		if f.cat == "nonidempotent" {
-			return fmt.Sprintf("comments-not-idempotent:%dpre+%dpost", mc.pre, mc.post)
+			if large {
+				return "unclassified:nonidempotent"
+			}
+			return fmt.Sprintf("comments-not-idempotent:%spre+%spost", fewOrMany(mc.pre), fewOrMany(mc.post))
 		}
 		kind, _ := firstComment(m)
 		if kind == "post" {
 			return "postcomment-inline-breaks-code"
 		}
+		if large {
+			return "unclassified:" + f.cat
+		}
 		return "precomment-newline-breaks:" + rootCtx(m)
+	}
+	if large {
+		// no feature of the tree can be blamed
+		return "unclassified:" + f.cat
 	}
 	// raw string printed as interpolating string
 	if f.cat == "structure" && f.t2 != nil {
@@ -536,7 +549,7 @@ func classify(m *parser.ASTNode, f *failure) string {
 		var key string
 		walk(m, func(n, p *parser.ASTNode, i int) {
 			if key == "" && p != nil && isOp(p) && statementKinds[n.Name] {
-				key = f.cat + ":statement-as-operand"
+				key = "statement-as-operand"
 			}
 		})
 		if key != "" {
@@ -661,6 +674,13 @@ func firstBlankLineCtx(m *parser.ASTNode) string {
 		}
 	})
 	return res
+}
+
+func fewOrMany(n int) string {
+	if n > 2 {
+		return "many"
+	}
+	return fmt.Sprint(n)
 }
 
 // firstComment returns the kind of the first comment in the tree and the
